@@ -5,7 +5,9 @@ use std::panic::{catch_unwind, AssertUnwindSafe};
 use std::sync::Mutex;
 
 use cfgrammar::{newlinecache::NewlineCache, Span};
-use lrlex::{DefaultLexerTypes, LRLexError, LRNonStreamingLexer};
+use lrlex::{DefaultLexerTypes, LRLexError, LRNonStreamingLexer, LRNonStreamingLexerDef, LexerDef};
+use lrpar::diagnostics::SpannedDiagnosticFormatter;
+use lrpar::Lexer;
 use lrpar::{LexParseError, NonStreamingLexer};
 use serde::{Deserialize, Serialize};
 use serde_json::{json, Value};
@@ -34,6 +36,17 @@ pub struct NReport {
     pub queries: u64,
     pub probes: BTreeMap<&'static str, u64>,
     pub log_hash: u64,
+}
+
+/// At most 6 findings per (class, known) are kept per history; known-signature matches never
+/// crowd out anything else.
+fn push_finding(rep: &mut NReport, class: &str, detail: String, known: Option<&str>) {
+    let n = rep.findings.iter().filter(|f| f.class == class && f.known.as_deref() == known).count();
+    if n < 6 {
+        rep.findings.push(NFinding { class: class.into(), detail, known: known.map(|s| s.into()) });
+    } else if known.is_some() {
+        *rep.probes.entry("known_signature_matches_beyond_the_per_history_cap").or_insert(0) += 1;
+    }
 }
 
 // ---- naive reference ------------------------------------------------------------------------
@@ -77,9 +90,7 @@ pub fn execute(sc: &NScenario, full_sweep_every_feed: bool) -> NReport {
     let mut lh = fnv(b"N");
     let nchunks = sc.chunks.len();
     let mut add = |rep: &mut NReport, class: &str, detail: String, known: Option<&str>| {
-        if rep.findings.len() < 50 {
-            rep.findings.push(NFinding { class: class.into(), detail, known: known.map(|s| s.into()) });
-        }
+        push_finding(rep, class, detail, known);
     };
     for (ci, ch) in sc.chunks.iter().enumerate() {
         if ch.is_empty() {
@@ -212,8 +223,163 @@ pub fn execute(sc: &NScenario, full_sweep_every_feed: bool) -> NReport {
             }
         }
     }
+    // The real lexer: `LRNonStreamingLexerDef::lexer` builds its own newline cache while it
+    // consumes the input (including the paths that stop at a lexing error).
+    real_lexer_checks(&mut rep, p);
+    underline_checks(&mut rep, p);
     rep.log_hash = lh;
     rep
+}
+
+fn lexerdef() -> &'static LRNonStreamingLexerDef<DefaultLexerTypes<u32>> {
+    static DEF: std::sync::OnceLock<LRNonStreamingLexerDef<DefaultLexerTypes<u32>>> = std::sync::OnceLock::new();
+    DEF.get_or_init(|| {
+        // 'x' has a rule but gets no token id (as when a lexer token is missing from the grammar):
+        // lexing stops there after the rule has matched. Multi-byte symbols other than e-acute
+        // match no rule at all: the other way lexing stops.
+        let src = "%%\na+ \"A\"\nb+ \"B\"\nx \"X\"\n\u{e9} \"E\"\n[ \\n\\r]+ ;\n";
+        let mut def = LRNonStreamingLexerDef::<DefaultLexerTypes<u32>>::from_str(src).expect("lexer definition");
+        let mut map = std::collections::HashMap::new();
+        map.insert("A", 0u32);
+        map.insert("B", 1u32);
+        map.insert("E", 2u32);
+        let _ = def.set_rule_ids(&map);
+        def
+    })
+}
+
+fn real_lexer_checks(rep: &mut NReport, p: &str) {
+    let def = lexerdef();
+    let lexer = match catch_unwind(AssertUnwindSafe(|| def.lexer(p))) {
+        Ok(l) => l,
+        Err(_) => {
+            rep.findings.push(NFinding { class: "real-lexer-panic".into(), detail: format!("lexer() panicked on {:?}", p), known: None });
+            return;
+        }
+    };
+    let mut add = |rep: &mut NReport, class: &str, detail: String, known: Option<&str>| {
+        push_finding(rep, class, detail, known);
+    };
+    let items: Vec<Result<lrlex::DefaultLexeme<u32>, LRLexError>> = match catch_unwind(AssertUnwindSafe(|| lexer.iter().collect())) {
+        Ok(v) => v,
+        Err(_) => vec![],
+    };
+    if items.iter().any(|x| x.is_err()) {
+        *rep.probes.entry("texts_where_the_real_lexer_stops_at_an_error").or_insert(0) += 1;
+    }
+    use lrpar::{LexError, Lexeme};
+    let mut spans: Vec<Span> = vec![];
+    for it in &items {
+        match it {
+            Ok(l) => spans.push(l.span()),
+            Err(e) => {
+                let sp = e.span();
+                spans.push(sp);
+                rep.queries += 1;
+                let err: LexParseError<u32, DefaultLexerTypes<u32>> = LexParseError::LexError(LRLexError::new(sp));
+                let exp = format!("Lexing error at line {} column {}.", ref_line(p, sp.start()), ref_col(p, sp.start()));
+                match catch_unwind(AssertUnwindSafe(|| err.pp(&lexer, &|_| None))) {
+                    Ok(m) if m == exp => {}
+                    Ok(m) => add(rep, "real-lexer-pp-position", format!("pp of the lexing error at byte {}: {:?}, expected {:?}; text {:?}", sp.start(), m, exp, p), None),
+                    Err(_) => add(rep, "real-lexer-pp-panic", format!("pp of the lexing error at byte {} panicked; text {:?}", sp.start(), p), None),
+                }
+            }
+        }
+    }
+    // every lexeme span, plus spans from each lexeme to the end of the text
+    let n = p.len();
+    let mut qs: Vec<(usize, usize)> = spans.iter().map(|s| (s.start(), s.end())).collect();
+    for s in &spans {
+        qs.push((s.start(), n));
+        qs.push((0, s.end()));
+    }
+    qs.push((n, n));
+    for (s, e) in qs {
+        rep.queries += 2;
+        let sp = Span::new(s, e);
+        let exp_lc = ((ref_line(p, s), ref_col(p, s)), (ref_line(p, e), ref_col(p, e)));
+        match catch_unwind(AssertUnwindSafe(|| lexer.line_col(sp))) {
+            Ok(lc) if lc == exp_lc => {}
+            Ok(lc) => add(rep, "real-lexer-line-col", format!("line_col({s}..{e}) = {:?}, expected {:?}; text {:?}", lc, exp_lc, p), None),
+            Err(_) => add(rep, "real-lexer-line-col-panic", format!("line_col({s}..{e}) panicked; text {:?}", p), None),
+        }
+        let (a, b) = ref_span_lines(p, s, e);
+        match catch_unwind(AssertUnwindSafe(|| lexer.span_lines_str(sp))) {
+            Ok(st) if st == &p[a..b] => {}
+            Ok(st) => {
+                let ends_at_line_start = e > s && p.as_bytes()[e - 1] == b'\n';
+                let incl_end = ref_line_end(p, e.min(p.len()));
+                if ends_at_line_start && st == &p[a..incl_end] {
+                    add(rep, "real-lexer-span-lines", format!("span_lines_str({s}..{e}) = {:?}, expected {:?}", st, &p[a..b]), Some("span-end-at-line-start"));
+                } else {
+                    add(rep, "real-lexer-span-lines", format!("span_lines_str({s}..{e}) = {:?}, expected {:?}; text {:?}", st, &p[a..b], p), None);
+                }
+            }
+            Err(_) => add(rep, "real-lexer-span-lines-panic", format!("span_lines_str({s}..{e}) panicked; text {:?}", p), None),
+        }
+    }
+}
+
+/// The underlined excerpt printed with diagnostics: for LF-only ASCII text and a span that does
+/// not end at a line start (where the extent is the known finding), every covered line is
+/// echoed as `<line>| <text>` and underlined from the column of the span's first byte on it.
+fn underline_checks(rep: &mut NReport, p: &str) {
+    if !p.is_ascii() || p.contains('\r') || p.is_empty() {
+        return;
+    }
+    let path = std::path::PathBuf::from("t");
+    let fmt = SpannedDiagnosticFormatter::new(p, &path);
+    let bs = boundaries(p);
+    let mut count = 0;
+    for (i, &s) in bs.iter().enumerate() {
+        for &e in &bs[i..] {
+            if e == s || p.as_bytes()[e - 1] == b'\n' || p.as_bytes()[s] == b'\n' {
+                continue;
+            }
+            count += 1;
+            if count > 120 {
+                return;
+            }
+            rep.queries += 1;
+            // reference
+            let mut exp = String::new();
+            let mut pos = s;
+            loop {
+                let ls = ref_line_start(p, pos);
+                let le = ref_line_end(p, pos);
+                let ln = ref_line(p, pos);
+                let seg_end = e.min(le);
+                exp.push_str(&format!("{}| {}\n", ln, &p[ls..le]));
+                exp.push_str(&" ".repeat(ln.to_string().len() + 2 + (pos - ls)));
+                exp.push_str(&"^".repeat((seg_end - pos).max(1)));
+                if e <= le {
+                    exp.push_str(" msg");
+                    break;
+                }
+                exp.push('\n');
+                pos = le + 1;
+                if pos >= e {
+                    // the span ends with this line's newline only: excluded above
+                    break;
+                }
+            }
+            if ref_line(p, s) != ref_line(p, e - 1) {
+                *rep.probes.entry("multi_line_underlines").or_insert(0) += 1;
+                if ref_line(p, e - 1) >= 10 && ref_line(p, s) < 10 {
+                    *rep.probes.entry("underlines_crossing_line_9_to_10").or_insert(0) += 1;
+                }
+            }
+            match catch_unwind(AssertUnwindSafe(|| fmt.underline_span_with_text(Span::new(s, e), "msg".into(), '^'))) {
+                Ok(got) if got == exp => {}
+                Ok(got) => {
+                    push_finding(rep, "underline-format", format!("underline_span_with_text({s}..{e}) on {:?}: got {:?}, expected {:?}", p, got, exp), None);
+                }
+                Err(_) => {
+                    push_finding(rep, "underline-panic", format!("underline_span_with_text({s}..{e}) panicked on {:?}", p), None);
+                }
+            }
+        }
+    }
 }
 
 const ALPHABET: &[&str] = &["a", "b", " ", "\n", "\n", "\r\n", "\r", "é", "❤", "𝄞", "x", "\n"];
